@@ -208,7 +208,16 @@ Definition lines_get (p : profile) (k : kind) (m : mem) (r : dref) : list string
 
 Definition lines_modules_full (p : profile) (m : mem) (r : dref) : list string :=
   let '(items, e) := modules_run (iter_fuel (tags_len r)) p m (tags_b r) (tags_len r) 0 in
-  (flat_map (fun t => line "module" (sTref KModule t) :: lines_kind p KModule m t) items ++ [line "modules" (sEnd e)])%list.
+  (flat_map (fun t => line "module" (sTref KModule t) :: lines_kind p KModule m t) items ++ [line "modules" (sEnd e)]
+   (* next() once, then clone().count() and the entries Debug (which clones) lists: both continue behind the first module *)
+   ++ [line "modules_clone"
+         (match e with
+          | Val _ => "VAL first=" ++ sBool (negb (len items =? 0)) ++ " rest=" ++ sN (len items - 1) ++ " dbg=" ++ sN (len items - 1)
+          | _ => match items with
+                 | [] => sRes (fun _ => "") e
+                 | _ => sRes (fun _ => "") e
+                 end
+          end)])%list.
 
 Definition lines_tail (p : profile) (m : mem) (r : dref) : list string :=
   [ line "get" ("elf_sections_deprecated " ++ sRes (sOpt (fun it : elf_iter => "rem=" ++ sN (el_rem it))) (elf_sections_deprecated p m r));
